@@ -63,11 +63,16 @@ info('C02',
      ['flag protocol as deductive obligations over charges.py: not yet under contract (bounded only)'],
      [A_BUILD], configs=BOTH)
 info('C03',
+     'P: frame and freshness of the leg-returning methods, real source on a symbolic leg / pipe over two incoming legs: LegCharge.copy, '
+     'conj, flip_charges_qconj and LegPipe.copy, conj, outer_conj leave every attribute of self (and of the incoming legs) as on entry, '
+     'return an object that is not self (conjugated incoming legs are fresh, too), flip qconj, keep or negate-and-reduce the charges, '
+     'and never carry a `sorted` claim over to negated charges (contracts/c_legs.py). '
      'B (bounded, not proof): fingerprints (dense values, leg identity and content incl. flags, labels, qtotal) of every operand '
      'unchanged after every non-in-place operation, including derived operands (same labels in another order for +, -, '
      'iadd_prefactor_other, binary_blockwise); in-place methods on a deep copy never change the source; '
      'ChargeInfo.make_valid leaves its argument alone; both configurations.',
-     ['frame conditions by freshness analysis (effects mode of the interpreter): not built; bounded only',
+     ['frame conditions of the tensor-level operations (np_conserved.Array methods, 5000 lines of numpy code): bounded only; '
+      'in-place numpy updates of an opaque attribute leave the verified subset instead of being modelled',
       'MPS/MPO level aliasing: bounded only'],
      [A_BUILD], configs=BOTH)
 info('C04',
